@@ -41,7 +41,8 @@ class _VmapBase(Contract):
     def replay(self, case, clause, model, path):
         return battery_replay("vmap_kwargs" if "kwargs" in case else "vmap_int_axes")
 
-    AXES = {"in_axes=0(default)": 0, "in_axes=(0,None)": (0, None), "in_axes=None(repeat)": None}
+    AXES = {"in_axes=0(default)": 0, "in_axes=(0,None)": (0, None), "in_axes=None(repeat)": None,
+            "in_axes=({p:0,q:None},None)": ({"p": 0, "q": None}, None)}
     cases = list(AXES) + ["in_axes=(0,None)+kwargs"]
 
     def mk(self, case):
@@ -59,6 +60,10 @@ class _VmapBase(Contract):
         elif self.axes == (0, None):
             self.args = (vec("a0", n), value("a1"))
             self.lane_args = lambda j: (lane_of(self.args[0], j), self.args[1])
+            size = None
+        elif isinstance(self.axes, tuple):  # an entry that is itself a pytree of axes
+            self.args = ({"p": vec("a0p", n), "q": value("a0q")}, value("a1"))
+            self.lane_args = lambda j: ({"p": lane_of(self.args[0]["p"], j), "q": self.args[0]["q"]}, self.args[1])
             size = None
         else:
             self.args = (value("a0"), value("a1"))
@@ -748,6 +753,60 @@ class CondTrGetArgs(Contract):
         yield "does_not_raise", path.outcome == "return"
         if path.outcome == "return":
             yield "standard_(args,kwargs)_format_with_check_first", args_recorded(path.value, (self.check,) + self.b_args, self.b_kw)
+
+
+@contract("genjax.core:CondTr.get_choices", ["C09", "C05", "C01", "C03"])
+class CondTrGetChoices(Contract):
+    """the visible choices of a CondTr are the conditional merge (Cond.merge(.., .., check), which keeps the first
+    argument where check holds) of the two branch traces' choices, in branch order [true, false]"""
+
+    cases = ["get_choices", "get_fixed_choices"]
+
+    def call(self, case):
+        g = AbsGF("h1")
+        self.check = boolean("check")
+        self.x1, self.x2 = value("x1"), value("x2")
+        t1 = AbsTrace(g, None, self.x1, None, None)
+        t2 = AbsTrace(g, None, self.x2, None, None)
+        self.calls = []
+        outer = self
+
+        class GF:
+            def merge(self, a, b, check=None):
+                outer.calls.append((a, b, check))
+                return ("merged", len(outer.calls)), None
+
+        tr = core.CondTr(GF(), self.check, [t1, t2])
+        return self.real(getattr(core.CondTr, case), tr)
+
+    def ensures(self, case, path):
+        yield "does_not_raise", path.outcome == "return"
+        if path.outcome != "return":
+            return
+        yield "one_conditional_merge", len(self.calls) == 1
+        if len(self.calls) != 1:
+            return
+        a, b, chk = self.calls[0]
+        yield "true_branch_choices_first", same(a, self.x1) and same(b, self.x2)
+        yield "merge_is_conditional_on_the_traces_check", chk is self.check
+        yield "returns_the_merged_map", path.value == ("merged", 1)
+
+
+@contract("genjax.core:CondTr.get_retval", ["C05", "C01"])
+class CondTrGetRetval(Contract):
+    cases = ["scalar"]
+
+    def call(self, case):
+        g = AbsGF("h1")
+        self.check = boolean("check")
+        self.r1, self.r2 = value("r1"), value("r2")
+        tr = core.CondTr(None, self.check, [AbsTrace(g, None, None, self.r1, None), AbsTrace(g, None, None, self.r2, None)])
+        return self.real(self.fn, tr)
+
+    def ensures(self, case, path):
+        yield "does_not_raise", path.outcome == "return"
+        if path.outcome == "return":
+            yield "selected_branch_retval", same(path.value, Sym(z3.If(self.check.e, self.r1.e, self.r2.e)))
 
 
 @contract("genjax.core:CondTr.get_score", ["C01", "C08", "C05"])
